@@ -100,6 +100,13 @@ def Fields.getPath : Fields → Path → Option Val
     | some (.msg sub) => Fields.getPath sub (k' :: rest)
     | _ => none
 
+/-- Path-set view of a mask: the continuations below field `k`, i.e. the tails of the paths whose
+first segment is `k`. -/
+def tails (k : Name) : List Path → List Path
+  | [] => []
+  | [] :: ps => tails k ps
+  | (a :: t) :: ps => if a = k then t :: tails k ps else tails k ps
+
 /-! ## fmutils.NestedMask -/
 
 /-- `map[string]NestedMask` as an association tree (keys unique by construction in `insert`). -/
